@@ -489,5 +489,22 @@ class TmpCollide(Component):
       s.o2 @= zext(b_c, 8)
 
 
+class UnicodeName(Component):
+  """a port and a wire whose (legal Python) names are not legal Verilog identifiers"""
+  def construct(s):
+    s.in_ = InPort(Bits8)
+    s.größe = InPort(Bits8)
+    s.out = OutPort(Bits8)
+    s.zähler = Wire(Bits8)
+
+    @update
+    def up_uni():
+      s.zähler @= s.in_ + s.größe
+
+    @update
+    def up_uni2():
+      s.out @= s.zähler
+
+
 MANGLE = {"MangleIfc": MangleIfc, "MangleList": MangleList, "MangleChild": MangleChild, "MangleStruct": MangleStruct,
-          "MangleChildList": MangleChildList, "MangleWireIfc": MangleWireIfc, "KeywordField": KeywordField, "TmpCollide": TmpCollide}
+          "MangleChildList": MangleChildList, "MangleWireIfc": MangleWireIfc, "KeywordField": KeywordField, "TmpCollide": TmpCollide, "UnicodeName": UnicodeName}
